@@ -39,6 +39,10 @@ func runC15(c *Ctx) {
 	c03ParseClose(c)
 	c03CloseBody(c)
 	controlWriterRules(c, "C15")
+	c18Flate(c)
+	// the handshakes guard the size assertions of the accept computation
+	httpUpgraderRules(c, "C15")
+	serverUpgraderRules(c, "C15")
 }
 
 // reviewedBounds: function + expression -> why the access is in range. The
